@@ -305,7 +305,16 @@ def perform(op, v, ip, res):
 def query(v, op, res):
     q = op['q']
     if q == 'settings_at':
-        return [(v.settings_at(i), [str(x) for x in v.ansi_settings_at(i)]) for i in op['idx']]
+        out = []
+        for i in op['idx']:
+            lst = v.ansi_settings_at(i)
+            codes_ = [str(x) for x in lst]
+            if op.get('scribble'):
+                # the caller may do what it likes with the returned list
+                lst.append('scribble')
+                del lst[:1]
+            out.append((v.settings_at(i), codes_ if not op.get('scribble') else [str(x) for x in v.ansi_settings_at(i)]))
+        return out
     if q == 'flags':
         return (v.is_formatting_valid(), v.is_formatting_parsable(), v.is_optimizable())
     if q == 'eq':
